@@ -92,6 +92,10 @@ fn panic_text(e: Box<dyn std::any::Any + Send>) -> String {
 /// alternates {yield; drain} until two consecutive drains are empty, so a task that
 /// waits in `send().await` on a full channel resumes and everything it emits is still
 /// attributed to the arrival that closed the groups.
+/// "burst": k (optional, k >= 2): queued bursts.  The arrivals are enqueued k at a time
+/// with `tx.send` WITHOUT yielding in between, so the dedup task finds up to k receptions
+/// waiting when it wakes; only then the driver yields and drains.  "out" then has one
+/// entry per burst (the records emitted while that burst was processed), not per arrival.
 async fn dedup(req: &Value) -> Value {
     let w = req["w"].as_u64().unwrap_or(0) as u32;
     let arrivals = req["arrivals"].as_array().cloned().unwrap_or_default();
@@ -101,6 +105,7 @@ async fn dedup(req: &Value) -> Value {
     let (tx_out, mut rx_out) =
         tokio::sync::mpsc::channel::<TimedMessage>(cap.unwrap_or(n + 1));
     let task = tokio::spawn(crate::dedup::deduplicate_messages(rx, tx_out, w));
+    let burst = req["burst"].as_u64().map(|b| (b as usize).max(1)).unwrap_or(1);
     let mut per_arrival: Vec<Value> = Vec::with_capacity(n);
     let mut crashed = false;
     for (k, a) in arrivals.iter().enumerate() {
@@ -121,9 +126,20 @@ async fn dedup(req: &Value) -> Value {
             }],
             decode_time: None,
         };
-        if tx.send(msg).await.is_err() {
+        // in a burst, try_send: `send().await` is subject to tokio's cooperative budget and
+        // would hand over to the dedup task after 128 operations (capacity n+1: never full)
+        let sent = if burst > 1 {
+            tx.try_send(msg).is_ok()
+        } else {
+            tx.send(msg).await.is_ok()
+        };
+        if !sent {
             crashed = true;
             break;
+        }
+        // queued burst: keep enqueueing (no yield) until the burst is complete
+        if (k + 1) % burst != 0 && k + 1 != n {
+            continue;
         }
         // let the deduplication task run until it waits for the next arrival
         let mut emitted = Vec::new();
@@ -142,7 +158,7 @@ async fn dedup(req: &Value) -> Value {
                 empty_drains = 0;
             }
             // default capacity: the channel is never full, one round is complete
-            if cap.is_none() || empty_drains >= 2 || task.is_finished() {
+            if (cap.is_none() && burst == 1) || empty_drains >= 2 || task.is_finished() {
                 break;
             }
         }
